@@ -80,7 +80,12 @@ def check(run):
         n_el = sum(1 for cid, st in cur.items() if st == 'elected')
         n_hop = sum(1 for cid, st in cur.items() if st == 'hopeful' and cid in elct)
         if n_el > seats:
-            out.append(('too-many-elected', '%d elected for %d seats at action %d' % (n_el, seats, ev.idx), dict(action=ev.idx)))
+            key = 'too-many-elected'
+            cfg = run.cfg
+            if E.rule.name in ('meek', 'warren') and cfg.kind == 'guarded' and cfg.guard > 0 and ev.quota is not None and \
+                    any(c.state == 'elected' and c.kf is not None and c.kf < cfg.of_int(1) and ev.quota - c.vote >= cfg.geps for c in ev.cands.values()):
+                key = 'meek-guarded-truncated-kf-overelects'        # same mechanism as the C01 known finding
+            out.append((key, '%d elected for %d seats at action %d' % (n_el, seats, ev.idx), dict(action=ev.idx)))
         n_el_electable = sum(1 for cid, st in cur.items() if st == 'elected' and cid in elct)
         if n_el_electable + n_hop < want:
             out.append(('seats-unfillable', 'elected %d + continuing electable %d < %d fillable seats at action %d (%s)'
